@@ -446,6 +446,33 @@ def magnetostatic_system(mesh):
     return K, f, fixed, Jc
 
 
+def harmonic_mu(mat, w):
+    """complex effective relative permeabilities of a linear material in a time-harmonic problem (FEMM manual, "laminations" and
+    "hysteresis lag"): mu e^{-j theta} for a solid material; for laminations in the plane of thickness d, conductivity sigma and
+    fill t, mu e^{-j theta} tanh(K)/K t + (1 - t) with K = e^{-j theta/2} (1 + j) d / (2 delta), delta = sqrt(2 / (w sigma mu0 mu));
+    (0.4*pi = mu0 * 1e6 (S/m per MS/m) in the solver's own constant)"""
+    import cmath
+    out = []
+    lt = mat.get("LamType", 0)
+    if lt != 0:
+        return 1.0, 1.0        # stranded regions without proximity effect (types 1, 2 are refused by the solver)
+    t = mat.get("LamFill", 1.0)
+    d = mat.get("d_lam", 0.0) * 1e-3
+    sig = mat.get("Sigma", 0.0) * 1e6
+    for mu, th in ((mat.get("Mu_x", 1.0), mat.get("Phi_hx", 0.0)), (mat.get("Mu_y", 1.0), mat.get("Phi_hy", 0.0))):
+        th = math.radians(th)
+        m = mu * cmath.exp(-1j * th)
+        if d != 0:
+            if sig != 0:
+                delta = math.sqrt(2.0 / (w * sig * MU0 * mu))
+                K = cmath.exp(-1j * th / 2) * (1 + 1j) * d / (2 * delta)
+                m = m * cmath.tanh(K) / K * t + (1 - t)
+            else:
+                m = m * t + (1 - t)
+        out.append(m)
+    return out[0], out[1]
+
+
 def harmonic_system(mesh, records):
     """time-harmonic planar magnetics, linear unlaminated materials: (K + j w sigma M) A = J_block + J_applied with the
     per-label applied current density taken from the records written with the solution (case 0: -sigma*dV, case 1: J)"""
@@ -459,8 +486,12 @@ def harmonic_system(mesh, records):
         l = mesh.lbl[k]
         lab = prob.labels[l]
         mat = prob.blockprops[lab["block"]]
-        mu1, mu2 = lam_mu(mat)
+        mu1, mu2 = harmonic_mu(mat, w)
         sig = label_sigma(prob, l)
+        if mat.get("LamType", 0) == 0 and mat.get("d_lam", 0.0) > 0:
+            sig = 0.0          # in-plane laminations: eddy currents live in the complex permeability
+        if mat.get("LamType", 0) > 2:
+            sig = 0.0          # stranded conductors carry no bulk eddy currents
         p, q, a = mesh.grads(k)
         Ke = (np.outer(p, p) / (MU0 * mu2) + np.outer(q, q) / (MU0 * mu1)) / (4 * a) + 1j * w * sig * a * mass
         idx = mesh.els[k]
@@ -476,12 +507,18 @@ def harmonic_system(mesh, records):
         if e["bc"] < 0:
             continue
         bp = prob.bdryprops[e["bc"]]
-        if bp["type"] != 2:
+        if bp["type"] not in (1, 2):
             continue
         i, j = mesh.els[k][s], mesh.els[k][(s + 1) % 3]
         l = math.hypot(*(mesh.xy[i] - mesh.xy[j]))
-        c0 = bp.get("c0", 0.0) + 1j * bp.get("c0i", 0.0)
-        c1 = bp.get("c1", 0.0) + 1j * bp.get("c1i", 0.0)
+        if bp["type"] == 1:
+            # small skin depth: (1/mu0) dA/dn + (1 + j) / (mu0 mu_r delta) A = 0
+            delta = math.sqrt(2.0 / (w * bp.get("Sigma_ssd", 0.0) * 1e6 * MU0 * bp.get("Mu_ssd", 0.0)))
+            c0 = (1 + 1j) / (MU0 * bp.get("Mu_ssd", 0.0) * delta)
+            c1 = 0.0
+        else:
+            c0 = bp.get("c0", 0.0) + 1j * bp.get("c0i", 0.0)
+            c1 = bp.get("c1", 0.0) + 1j * bp.get("c1i", 0.0)
         for (a_, b_, wt) in ((i, i, 2), (j, j, 2), (i, j, 1), (j, i, 1)):
             rows.append(a_); cols.append(b_); vals.append(l * c0 * wt / 6)
         f[i] -= l * c1 / 2
